@@ -27,7 +27,7 @@ DRIVER = "Driver/C26.lean"
 OBLIGATIONS = ["NiftyVerif.C26." + t for t in (
     "consecutive_length_spec", "save_postcondition", "load_of_fresh", "save_load_roundtrip", "stale_never_leaks",
     "save_overwrite_succeeds", "load_partition_independent", "welford_mean", "welford_var", "n1_variance_zero",
-    "sample_stat_spec")]
+    "sample_stat_spec", "welford_merge")]
 RULE = ("history = sequence of save(list length 0..6, task partition, overwrite?, residual?) / load(task count) ops on 1-3 "
         "bases in one directory, task counts 0(comm=None),1..4 on either side; non-trivial = a shorter list saved over a "
         "longer one, or different task counts on the two sides, or a refused save; distinct by history. "
